@@ -11,10 +11,14 @@ package snapshot
 // The harness builds a store directory (shape chosen), records what the newest snapshot is and
 // what it resolves to, runs the REAL reap (Store.reapInternal: plan construction, plan file,
 // Plan.Execute with the real Executor, plan removal) and lets the process die at crash point k
-// (fsmodel.go: every mutating file-system call, and inside db.CheckpointRemove). Then the real
-// start-up repair (Store.check, which is what NewStore runs) is executed on what is on disk -
+// (fsmodel.go: before every mutating file-system call, and INSIDE every call that is not atomic:
+// db.CheckpointRemove, a directory removal - any subset of the entries gone -, a file write - a
+// prefix written). Then the real start-up repair (Store.check, which is what NewStore runs) is executed on what is on disk -
 // optionally dying again at crash point k2 of the repair, and again at k3 of the second repair
-// - and finally runs to the end. The oracle is the property text.
+// - and finally runs to the end. The oracle is the property text, plus the mechanism the
+// documentation of Store.Reap names for it: "The entire sequence of operations is captured in a
+// Plan, which is serialized to disk at the path REAP_PLAN. The plan is then executed." - whenever
+// the reap dies with the store directory no longer as it was, REAP_PLAN is on disk.
 //
 // In the symbolic run the file system is the model of fsmodel.go; the native replay runs the
 // same harness on a real temporary directory with real SQLite files (generated with the real db
@@ -39,6 +43,10 @@ type vShape struct {
 }
 
 func (sh vShape) nWAL() int { return sh.fullWALs + sh.incs*sh.walsPerInc }
+
+// removalOnly: the newest snapshot is a full one without WAL files, so the reap has nothing to
+// consolidate and only deletes the older snapshots.
+func (sh vShape) removalOnly() bool { return sh.fullWALs == 0 && sh.incs == 0 && sh.older > 0 }
 
 func vChooseShape() vShape {
 	sh := vShape{walsPerInc: 1}
@@ -96,8 +104,19 @@ func vBuildStore(root string, sh vShape) string {
 	return dir
 }
 
-func vMarkCrash(dir string) {
+func vMarkCrash(dir string, sh vShape) {
 	switch {
+	case vCr.inside && vCr.op == vOpRemoveAll:
+		verifReach("crash-inside-directory-removal")
+		if sh.removalOnly() {
+			verifReach("crash-inside-directory-removal-of-removal-only-reap")
+		}
+	case vCr.inside && vCr.op == vOpWriteFile && strings.HasSuffix(vCr.path, reapPlanFile+tmpSuffix):
+		verifReach("crash-inside-plan-write")
+	case vCr.inside && vCr.op == vOpWriteFile && strings.HasSuffix(vCr.path, metaFileName):
+		verifReach("crash-inside-metadata-rewrite")
+	case vCr.inside && vCr.op == vOpSidecar:
+		verifReach("crash-inside-checksum-write")
 	case strings.HasSuffix(vCr.path, reapPlanFile+tmpSuffix):
 		verifReach("crash-while-writing-plan")
 	case vCr.op == vOpCkptInside:
@@ -127,6 +146,27 @@ func vCheckRecovered(dir string, pre vView, tag string) {
 	verifAssert("C07-"+tag+"-no-plan-or-temporary-left", !vLeftovers(dir))
 }
 
+// vStoreDigest is a digest of the store directory without the reap plan and its temporary file.
+func vStoreDigest(dir string) string {
+	out := ""
+	for _, name := range vList(dir) {
+		if name == reapPlanFile || name == reapPlanFile+tmpSuffix {
+			continue
+		}
+		p := filepath.Join(dir, name)
+		if vIsDir(p) {
+			out += name + "/{" + vTree(p) + "}"
+			continue
+		}
+		b, _ := os.ReadFile(p)
+		out += name + "=" + string(b) + ";"
+	}
+	return out
+}
+
+// vPlanMissing: the reap died with the store directory changed and no REAP_PLAN on disk.
+var vPlanMissing bool
+
 // vSweepLastOp describes where the reap died (read by the native sweep test).
 var vSweepLastOp string
 
@@ -143,9 +183,11 @@ func vReap(dir string, sh vShape) error {
 // returns the store directory and the view before the reap; crashes counts the deaths.
 func vCrashScenario(sh vShape, repairs int) (root, dir string, pre vView, crashes int) {
 	root = vNewRoot("r")
+	vPlanMissing = false
 	dir = vBuildStore(root, sh)
 	pre = vObserve(dir)
 	verifAssert("C07-world-is-a-valid-store", pre.ok && pre.crcOK && pre.index == 20+10*uint64(sh.incs))
+	before := vStoreDigest(dir)
 
 	n := vCountPoints(func() { vReap(dir, sh) })
 	at := 1 + verifChoice("crashAt", n+1) // n+1: the reap runs to its end
@@ -157,8 +199,17 @@ func vCrashScenario(sh vShape, repairs int) (root, dir string, pre vView, crashe
 		vSweepLastOp = "no crash"
 	} else {
 		vSweepLastOp = "before " + vCr.op + " " + filepath.Base(vCr.path)
+		if vCr.inside {
+			vSweepLastOp = "inside " + vCr.op + " " + filepath.Base(vCr.path)
+		}
 		crashes++
-		vMarkCrash(dir)
+		vMarkCrash(dir, sh)
+		// the plan is on disk before the first mutation (asserted by the caller, after the
+		// observable behaviour)
+		if vStoreDigest(dir) != before {
+			vPlanMissing = !vExists(filepath.Join(dir, reapPlanFile))
+			verifReach("died-after-first-mutation")
+		}
 	}
 	for i := 0; i < repairs; i++ {
 		n2 := vCountPoints(func() { vBareStore(dir).check() })
@@ -171,6 +222,9 @@ func vCrashScenario(sh vShape, repairs int) (root, dir string, pre vView, crashe
 		}
 		verifAssume(vRunCrash(k, func() { vBareStore(dir).check() }))
 		crashes++
+		if verifSymbolic() {
+			println("CAT", i, len(vPartialLog), vCr.inside)
+		}
 		if i == 0 {
 			verifReach("crash-during-repair")
 		} else {
@@ -203,6 +257,7 @@ func VerifC07Crash() {
 		verifAssert("C07-consolidated-into-one-snapshot", post.n == 1)
 		verifReach("consolidated")
 	}
+	verifAssert("C07-plan-on-disk-before-first-mutation", !vPlanMissing)
 }
 
 // VerifC07Chain (thorough): three deaths in a row - in the reap, in the repair, in the repair of
@@ -219,6 +274,7 @@ func VerifC07Chain() {
 	err := vBareStore(dir).check()
 	verifAssert("C07-store-opens-after-three-crashes", err == nil)
 	vCheckRecovered(dir, pre, "after-three-crashes")
+	verifAssert("C07-plan-on-disk-before-first-mutation", !vPlanMissing)
 }
 
 // VerifC07Twin (must be violated): the same scenario without the repair - a reap that died
